@@ -119,6 +119,9 @@ theorem loadFile_torn (cfg : Nat) (now : Int) (buf0 : Bytes) (pre : List Rec) (x
     simp only [hend, specK, padded, Kend]
     by_cases hh : hasData (List.take res x.buf ++ List.drop res buf) = true
     · simp only [hh, if_true]
-    · simp only [hh, if_false]
+      cases d with
+      | none => rfl
+      | some dr => simp only []; cases readLockData dr <;> rfl
+    · simp only [hh, Bool.false_eq_true, if_false]
 
 end Slock.Aof
